@@ -75,7 +75,7 @@ class C13(Check):
         self.stats = {}
 
     def budget(self, tier, escalated):
-        n = 2400 if tier == 'quick' else 60000
+        n = 6000 if tier == "quick" else 240000
         return n * (4 if escalated and tier == 'quick' else 1)
 
     def nontrivial(self, sample):
@@ -102,6 +102,9 @@ class C13(Check):
                 if rng.random() < .7:
                     buf = max(buf, enc.max_line())
                 cl = -1
+                if rng.random() < .15 and raw:      # malformed chunked bodies under a size limit
+                    o = rng.randrange(len(raw))
+                    raw = rng.choice([raw[:o], raw[:o] + bytes([rng.choice(bl.GARBAGE)]) + raw[o + 1:], raw[:o] + raw[o + 1:]])
             else:
                 raw = payload + (b'' if rng.random() < .6 else b'tail')
                 cl = len(payload) if rng.random() < .8 else len(payload) + rng.choice([1, 5])
@@ -203,6 +206,15 @@ class C13(Check):
             raw, te, clh = payload, None, str(n)
         w = bl.run_wsgi('@', buf, maxb, clh, te, raw, sched, [op], ctype=ctype)
         expect = c['expect']
+        if kind in ('urlencoded', 'json'):
+            # "refused rather than loaded": the text accessor never pulls more than threshold + 1 bytes
+            wm = bl.run_wsgi('@', buf, maxb, clh, te, raw, sched, ['?M'], ctype=ctype)
+            probe = wm['info'].get('probe')
+            if probe is None:
+                return f'{kind}:probe', f'{c["what"]}: body could not be read ({wm["outs"]})'
+            if max(probe.returned, default=0) > buf + 1:
+                return (f'{kind}:text-loaded-before-refusal',
+                        f'{c["what"]}: _get_body_string pulled {max(probe.returned)} bytes into memory')
         if expect == 'refused':
             if w['status'] != 413:
                 return f'{kind}:text-over-threshold-not-refused', f'{c["what"]}: WSGI answered {w["status"]}, expected 413'
